@@ -393,11 +393,11 @@ def judge_inherit(ctx, text, n, g, resp):
 
 def plan(tier, seed):
     specs = [("containment-small", i, 16) for i in range(16)]
-    specs += [("containment-4", i, 16, 1 / 16 if tier == "quick" else 1) for i in range(16)]
-    nrand = 1500 if tier == "quick" else 30000
+    specs += [("containment-4", i, 16, 1 / 4 if tier == "quick" else 1) for i in range(16)]
+    nrand = 20000 if tier == "quick" else 300000
     specs += [("containment-random", nrand // 16, i) for i in range(16)]
     specs += [("alias", i, 8) for i in range(8)]
-    specs += [("alias-anon", (3000 if tier == "quick" else 60000) // 16, i) for i in range(16)]
+    specs += [("alias-anon", (30000 if tier == "quick" else 400000) // 16, i) for i in range(16)]
     specs += [("inherit", 1, 0, 1), ("inherit", 2, 0, 1)] + [("inherit", 3, i, 4) for i in range(4)]
     if tier == "thorough":
         specs += [("inherit", 4, i, 16) for i in range(16)]
@@ -411,7 +411,7 @@ def main(tier, seed):
         run, "exploration",
         rule=("each case is a program generated from a graph: containment between struct / compact struct / enum-with-fields nodes "
               "(all digraphs with self-loops on <= 3 nodes x 8 wrapper rotations so that every edge meets every wrapper form; all "
-              "65536 digraphs on 4 nodes in thorough, a seed-rotated 1/16 in quick; random graphs on 5-10 nodes with multi-edges), "
+              "65536 digraphs on 4 nodes in thorough, a seed-rotated 1/4 in quick; random graphs on 5-10 nodes with multi-edges), "
               "all 5^4 alias target graphs, all inheritance digraphs on <= 3 (thorough 4) interfaces. Reference: SCCs of the "
               "generating graph; every reported chain and note is validated against the generated fields. distinct_nontrivial = "
               "distinct graphs (with wrappers and node kinds) having at least one edge"),
